@@ -269,8 +269,12 @@ func (t *fnTrans) modelCall(key string, fn *ssa.Function, args []Val, argTys []t
 		t.lockOp(args[0], false, key, pos)
 		return Val{}, true
 	}
-	if key == "encoding/json.Unmarshal" || key == "(*encoding/json.Decoder).Decode" {
-		// decoding writes only exported fields of the struct it is given (and whatever they point to)
+	if key == "encoding/json.Unmarshal" || key == "(*encoding/json.Decoder).Decode" ||
+		strings.HasSuffix(key, "/internal/http_api.Client).GETV1") || strings.HasSuffix(key, "/internal/http_api.Client).POSTV1") {
+		// decoding writes only exported fields of the struct it is given. Scalar fields get arbitrary
+		// values; if the target was allocated by this function (a fresh, still zero struct), pointer /
+		// slice / map fields get arbitrary values too and existing objects are untouched (the decoder
+		// allocates what it fills). Otherwise fall through to the opaque treatment.
 		v := args[len(args)-1]
 		if v.IfaceT != nil {
 			if pt, ok := v.IfaceT.Underlying().(*types.Pointer); ok {
@@ -287,18 +291,26 @@ func (t *fnTrans) modelCall(key string, fn *ssa.Function, args []Val, argTys []t
 							simple = false
 						}
 					}
-					if simple {
+					freshTarget := strings.HasPrefix(v.IfaceV, "new_")
+					if simple || freshTarget {
+						// the decoder may allocate
+						na := t.fresh("alloc_dec", "Int")
+						t.assume(fmt.Sprintf("(>= %s %s)", na, t.get(t.cur, "alloc")))
+						t.set("alloc", na)
 						for i := 0; i < st.NumFields(); i++ {
 							f := st.Field(i)
 							if !f.Exported() {
 								continue
 							}
+							if _, isArr := f.Type().Underlying().(*types.Array); isArr {
+								continue
+							}
 							fv := t.fieldVar(pt.Elem(), i)
-							nv := t.freshVal("json_"+f.Name(), f.Type())
+							nv := t.freshVal("dec_"+f.Name(), f.Type())
 							t.set(fv.Name, fmt.Sprintf("(store %s %s %s)", t.get(t.cur, fv.Name), v.IfaceV, nv))
 						}
-						t.usedExterns[key+" (model: writes exported fields of the target struct only)"] = true
-						return t.resultVal(resTy, "jsonerr"), true
+						t.usedExterns[key+" (model: writes only the exported fields of the target struct; objects it allocates are arbitrary)"] = true
+						return t.resultVal(resTy, "decerr"), true
 					}
 				}
 			}
@@ -377,7 +389,16 @@ func (t *fnTrans) modelCall(key string, fn *ssa.Function, args []Val, argTys []t
 func (t *fnTrans) lockOp(m Val, acquire bool, key string, pos token.Pos) {
 	p := m.P
 	if p == nil || p.Ref == "" || len(p.Sels) == 0 {
-		t.assumptions["lock operation on an unmodelled mutex at "+t.posStr(pos)] = true
+		t.assumptions["lock operation on a mutex without a lock item (function-local or unmodelled) at "+t.posStr(pos)] = true
+		if acquire && t.fc != nil {
+			// a function-local mutex (captured by worker closures): the function's `lockassume`
+			// clauses state its monitor invariant; they are assumptions, reported as such
+			le := t.entryEnv(t.cur)
+			for _, c := range t.fc.LockAssumes {
+				t.assume(le.boolOf(c.Expr))
+				t.assumptions["assumed after lock acquisition, not checked: "+c.Src] = true
+			}
+		}
 		return
 	}
 	// mutex identity: struct type + path of field names
